@@ -40,6 +40,8 @@ struct HbShared {
     /// relaxed flags: they create no happens-before edge of their own
     finished: AtomicBool,
     completed: AtomicBool,
+    fut_drops: AtomicU64,
+    out_drops: AtomicU64,
     cross_thread_polls: AtomicU64,
     violation: StdMutex<Option<String>>,
 }
@@ -95,12 +97,20 @@ struct HbFut {
 impl Drop for HbFut {
     fn drop(&mut self) {
         // (a cancelled future never completes: the waiting loops end here)
+        self.sh.fut_drops.fetch_add(1, Ordering::Relaxed);
         self.sh.finished.store(true, Ordering::Relaxed);
     }
 }
 
 struct HbOut {
+    sh: StdArc<HbShared>,
     value: Box<u64>,
+}
+
+impl Drop for HbOut {
+    fn drop(&mut self) {
+        self.sh.out_drops.fetch_add(1, Ordering::Relaxed);
+    }
 }
 
 impl Future for HbFut {
@@ -128,6 +138,7 @@ impl Future for HbFut {
             sh.completed.store(true, Ordering::Relaxed);
             sh.finished.store(true, Ordering::Relaxed);
             return Poll::Ready(HbOut {
+                sh: sh.clone(),
                 value: Box::new(0xC13_0000 + self.polls),
             });
         }
@@ -162,6 +173,9 @@ pub(crate) struct HbCase {
     /// yields inside the poll that returns Ready
     #[serde(default)]
     pub ready_yields: u8,
+    /// the promise thread drops the promise after this many yields instead of polling it
+    #[serde(default)]
+    pub promise_drop_after: Option<u8>,
 }
 
 pub(crate) struct TaskHbSub;
@@ -194,8 +208,9 @@ impl SubCheck for TaskHbSub {
             any::<bool>(),
             prop_oneof![2 => Just(None), 1 => (0u8..12).prop_map(Some)],
             0u8..4,
+            prop_oneof![3 => Just(None), 1 => (0u8..12).prop_map(Some)],
         )
-            .prop_map(|(target, wakers, promise_thread, forget, drop_token_early, cancel_after, ready_yields)| HbCase {
+            .prop_map(|(target, wakers, promise_thread, forget, drop_token_early, cancel_after, ready_yields, promise_drop_after)| HbCase {
                 target,
                 wakers,
                 promise_thread,
@@ -203,6 +218,7 @@ impl SubCheck for TaskHbSub {
                 drop_token_early,
                 cancel_after,
                 ready_yields,
+                promise_drop_after,
             })
             .boxed()
     }
@@ -212,6 +228,8 @@ impl SubCheck for TaskHbSub {
             waker_slot: StdMutex::new(None),
             finished: AtomicBool::new(false),
             completed: AtomicBool::new(false),
+            fut_drops: AtomicU64::new(0),
+            out_drops: AtomicU64::new(0),
             cross_thread_polls: AtomicU64::new(0),
             violation: StdMutex::new(None),
         });
@@ -289,7 +307,16 @@ impl SubCheck for TaskHbSub {
         let pt = if c.promise_thread && promise.is_some() {
             let p = promise.take().unwrap();
             let sh = sh.clone();
+            let drop_after = c.promise_drop_after;
             Some(std::thread::spawn(move || {
+                if let Some(n) = drop_after {
+                    // the promise is released while the task may be running elsewhere
+                    for _ in 0..n {
+                        std::thread::yield_now();
+                    }
+                    drop(p);
+                    return None;
+                }
                 let mut after_end = 0;
                 for _ in 0..SPINS {
                     let fin = sh.finished.load(Ordering::Relaxed);
@@ -379,6 +406,17 @@ impl SubCheck for TaskHbSub {
         drop(token);
         let w = sh.waker_slot.lock().unwrap().take();
         drop(w);
+        // every handle has been released: the future and - if one was produced - the output
+        // have been dropped exactly once
+        let fd = sh.fut_drops.load(Ordering::Relaxed);
+        if fd != 1 {
+            sh.fail("future-drop", format!("the future was dropped {} times after every handle was released", fd));
+        }
+        let od = sh.out_drops.load(Ordering::Relaxed);
+        let produced = sh.completed.load(Ordering::Relaxed) as u64;
+        if od != produced {
+            sh.fail("output-drop", format!("outputs produced {} dropped {}", produced, od));
+        }
         let failed = sh.violation.lock().unwrap_or_else(|e| e.into_inner()).clone();
         if let Some(v) = failed {
             let (clause, detail) = v.split_once('|').map(|(a, b)| (a.to_string(), b.to_string())).unwrap_or((v.clone(), String::new()));
